@@ -176,6 +176,28 @@ impl KsfSel for ProbeKsf {
         ProbeKsf(id)
     }
 }
+/// A ZERO-SIZED custom stretching function (what a user writes as `struct MyKsf;` with fixed parameters): logs like
+/// ProbeKsf (instance id 0), output = refmodel::probe_ksf(7, input)
+#[derive(Default)]
+pub struct UnitKsf;
+impl Ksf for UnitKsf {
+    fn hash<L: ArrayLength<u8>>(&self, input: GenericArray<u8, L>) -> Result<GenericArray<u8, L>, InternalError> {
+        let n = KSF_LOG.with(|l| {
+            l.borrow_mut().push((0, input.to_vec()));
+            l.borrow().len()
+        });
+        if KSF_FAIL_AT.with(|f| *f.borrow() == Some(n)) {
+            return Err(InternalError::KsfError);
+        }
+        Ok(GenericArray::clone_from_slice(&crate::refmodel::probe_ksf(7, &input)))
+    }
+}
+impl KsfSel for UnitKsf {
+    const FAMILY: &'static str = "unit";
+    fn make(_id: u32) -> Self {
+        UnitKsf
+    }
+}
 pub fn argon2_params(id: u32) -> argon2::Params {
     match id {
         0 => argon2::Params::default(),
@@ -782,11 +804,17 @@ pub mod argon {
     family!(Arg, suites, [(RisRis, Ris, Ris), (P256P256, P2, P2), (P384C25, P3, C25)]);
 }
 
+pub mod unit {
+    use super::*;
+    family!(UnitKsf, suites, [(RisRis, Ris, Ris), (P256P256, P2, P2), (P384C25, P3, C25)]);
+}
+
 pub fn suite_by_name(family: &str, name: &str) -> Option<&'static dyn Suite> {
     let l = match family {
         "identity" => suites(),
         "probe" => probe::suites(),
         "argon2" => argon::suites(),
+        "unit" => unit::suites(),
         _ => return None,
     };
     l.into_iter().find(|s| s.name() == name)
